@@ -1078,6 +1078,44 @@ impl<const N: usize> Drv<N> {
                     };
                 }
             }
+            "v_nth" | "v_nth_back" => {
+                // provided iterator methods (an implementation may override them): skip k elements, yield the next
+                let k = dec(gi(st, "i", 0)).min(1 << 20);
+                ev.i = gi(st, "i", 0);
+                let front = op == "v_nth";
+                let slot = self.views[v as usize].as_mut().unwrap();
+                let mut got_ref: Option<Option<*const Tracked>> = None;
+                let mut got_val: Option<Option<Tracked>> = None;
+                match &mut slot.view {
+                    View::It(it) => {
+                        got_ref = call(&mut ev, fault, || (if front { it.nth(k) } else { it.nth_back(k) }).map(|x| x as *const Tracked));
+                    }
+                    View::ItMut(it) => {
+                        got_ref = call(&mut ev, fault, || (if front { it.nth(k) } else { it.nth_back(k) }).map(|x| x as *const Tracked));
+                    }
+                    View::Dr(it) => {
+                        got_val = call(&mut ev, fault, || if front { it.nth(k) } else { it.nth_back(k) });
+                    }
+                    View::Into(it) => {
+                        got_val = call(&mut ev, fault, || if front { it.nth(k) } else { it.nth_back(k) });
+                    }
+                }
+                if let Some(r) = got_ref {
+                    ev.ret = match r {
+                        Some(x) => {
+                            let x = unsafe { &*x };
+                            Ret::some_at(x.lid(), if p.is_null() { -1 } else { self.slot_of(p, x) })
+                        }
+                        None => Ret::none(),
+                    };
+                }
+                if let Some(r) = got_val {
+                    ev.ret = match r {
+                        Some(x) => Ret::some(self.keep(x)),
+                        None => Ret::none(),
+                    };
+                }
+            }
             "v_len" | "v_size_hint" => {
                 let slot = self.views[v as usize].as_ref().unwrap();
                 let r = call(&mut ev, fault, || {
